@@ -335,7 +335,24 @@ func C05(r *eng.Run) {
 			jobs = append(jobs, job{"T:" + K + ":" + tail, len(K) + len(tail)})
 		}
 	}
-	firstLeadJob := len(jobs)
+	firstTailJob := len(jobs)
+	// every sticky-tail pattern after 34- and 35-digit prefixes (which reduction arm runs depends on the total length)
+	for _, K := range []string{gen1[:34], "2000000000000000000000000000000000", "1298074214633706907132624082305022", "12980742146337069071326240823050238", "9999999999999999999999999999999998", "3000000000000000000000000000000001"} {
+		for _, tl := range stickyTails(5) {
+			ts := tl.String()
+			for len(ts) < 1 {
+				ts = "0" + ts
+			}
+			for pad := len(ts); pad <= 5; pad++ {
+				tt := strings.Repeat("0", pad-len(ts)) + ts
+				if pad > len(ts) && pad != 5 {
+					continue
+				}
+				jobs = append(jobs, job{"T:" + K + ":" + tt, len(K) + len(tt)})
+			}
+		}
+	}
+	_ = len(jobs)
 	// leading-digit prefixes (binary accumulator limits 2^64/10^j, 2^128/10^j and every 2- or 3-digit lead) at the lengths where the accumulators switch
 	var leads []string
 	for _, t := range []string{"1844", "1845", "18446", "18447", "185", "3402", "3403", "34028", "34029", "341", "345", "35", "3322", "3323", "333", "1297", "1298", "1299", "13", "2551", "2552", "256", "26", "0272", "028"} {
@@ -371,7 +388,7 @@ func C05(r *eng.Run) {
 			}
 			zeros := []int{0, 1, 20, 40}
 			exps := expFields
-			leadJob := strings.HasPrefix(j.kind, "T:") && k >= firstLeadJob
+			leadJob := strings.HasPrefix(j.kind, "T:") && k >= firstTailJob
 			if leadJob {
 				dots = []int{-1, 0, 1, j.L - 1, j.L}
 			}
@@ -426,6 +443,29 @@ func C05(r *eng.Run) {
 	dec.DefaultRoundingMode = saved
 	r.Transitions.Add(r.Evals()/3 - m1)
 	r.Phase("A1 structured literals", t0, nil)
+
+	// separator placement: '_' inserted at every position of structured literals (valid only between two digits of the mantissa)
+	t0 = time.Now()
+	var sepBase []string
+	for _, L := range []int{1, 2, 3, 18, 19, 20, 21, 22, 37, 38, 39, 40, 41, 45} {
+		d := digitPattern("G", L)
+		sepBase = append(sepBase, d, d+".5", "0."+d, d+"e5", d+".25e-3", d[:(L+1)/2]+"."+d[(L+1)/2:]+"E+7", "-"+d)
+	}
+	r.Bounds["separator_base_literals"] = len(sepBase)
+	r.Par(len(sepBase), func(w *eng.W, k int) {
+		s := sepBase[k]
+		for i := 0; i <= len(s); i++ {
+			checkParse(w, s[:i]+"_"+s[i:], 0, "")
+			if i < len(s) {
+				checkParse(w, s[:i]+"__"+s[i:], 0, "")
+				for j := i + 2; j <= len(s); j += 7 {
+					checkParse(w, s[:i]+"_"+s[i:j]+"_"+s[j:], 0, "")
+				}
+			}
+		}
+		w.Cell("Parse/separator-placement", true)
+	})
+	r.Phase("separator placement", t0, nil)
 
 	// Scan
 	t0 = time.Now()
